@@ -28,6 +28,7 @@ var builtinCorpus = []string{
 	"var @a := 1; while @a < 3 do @a := @a + 1; end while;", "declare cur cursor for select 1; open cur; fetch cur into @x; close cur;",
 	"create table t (a, b)", "alter table t add c default 1 first", "prepare stmt from 'select :a'; execute stmt using 1 as a;",
 	"if @a then print 1; elseif @b then print 2; else print 3; end if;", "declare f function (@x) as begin return @x + 1; end;",
+	"$echo 'abc", "$echo \"abc", "$echo `abc", "$echo 'a;b' \"c;d\" `e;f` ${@v} ${'}'} \\} x; select 1", "$cmd ${@a", "$cmd ${'", "$cmd 'a\\", "$", "$;", "$ ${", "$a 'b' \"c", "select 1; $ls -l 'x y';",
 	"set @@delimiter to ','", "show tables", "source `x.sql`", "commit", "rollback", "echo 'a'", "$ls -l;", "select @%HOME, @#version, @@cpu",
 }
 
@@ -236,6 +237,7 @@ type parseResult struct {
 }
 
 func tryParse(text string, prep, ansi bool) (res parseResult) {
+	working(text)
 	defer func() {
 		if r := recover(); r != nil {
 			res.panicked = r
@@ -862,7 +864,7 @@ var corpusText string
 
 // witnesses: the corpus of the property (corpus.txt) — one minimal witness per known finding, one per repaired defect
 // (these must pass) and texts around them. Always run first, independent of the seed.
-func (ps *parseStream) witnesses() {
+func (ps *parseStream) witnesses() (plan []job) {
 	for ln, line := range strings.Split(corpusText, "\n") {
 		if strings.TrimSpace(line) == "" || strings.HasPrefix(line, "#") {
 			continue
@@ -882,32 +884,40 @@ func (ps *parseStream) witnesses() {
 			if f[0] == "p0" && prep || f[0] == "p1" && !prep {
 				continue
 			}
-			ps.one(text, prep, ansi, "witness", eval && !prep)
+			plan = append(plan, ps.job(text, prep, ansi, "witness", eval && !prep))
 		}
 	}
+	return plan
 }
 
-func (ps *parseStream) run(n int) {
+func (ps *parseStream) job(text string, prep, ansi bool, origin string, evalOK bool) job {
+	return job{vets: []vetItem{{text, prep, ansi}}, run: func() { ps.one(text, prep, ansi, origin, evalOK) }}
+}
+
+func (ps *parseStream) plan(n int) (plan []job) {
 	g := ps.g
 	for i := 0; i < n; i++ {
 		prep, ansi := g.Intn(2) == 0, g.Intn(2) == 0
-		switch k := g.Intn(20); {
-		case k < 2: // corpus text as is, in every mode
+		switch k := g.Intn(40); {
+		case k < 4: // corpus text as is
 			s := ps.corpus[g.Intn(len(ps.corpus))]
-			ps.one(s, prep, ansi, "corpus", false)
-		case k < 9: // token-level mutation of a corpus text
+			plan = append(plan, ps.job(s, prep, ansi, "corpus", false))
+		case k < 18: // token-level mutation of a corpus text
 			s := mutate(g, ps.corpus[g.Intn(len(ps.corpus))], ps.corpus)
-			ps.one(s, prep, ansi, "corpus_mutated", false)
-		case k < 14: // generated query
-			ps.one(genQuery(g, prep, ansi, false), prep, ansi, "generated", false)
-		case k < 17: // generated constant query: evaluated as well
-			ps.one(genQuery(g, false, ansi, true), false, ansi, "generated_const", true)
-		case k < 19: // mutation of a generated query
-			ps.one(mutate(g, genQuery(g, prep, ansi, false), ps.corpus), prep, ansi, "generated_mutated", false)
-		default: // raw scanner-dictionary text
-			ps.one(genScanText(g), prep, ansi, "scan_text", false)
+			plan = append(plan, ps.job(s, prep, ansi, "corpus_mutated", false))
+		case k < 28: // generated query
+			plan = append(plan, ps.job(genQuery(g, prep, ansi, false), prep, ansi, "generated", false))
+		case k < 34: // generated constant query: evaluated as well
+			plan = append(plan, ps.job(genQuery(g, false, ansi, true), false, ansi, "generated_const", true))
+		case k < 37: // mutation of a generated query
+			plan = append(plan, ps.job(mutate(g, genQuery(g, prep, ansi, false), ps.corpus), prep, ansi, "generated_mutated", false))
+		case k < 39: // raw scanner-dictionary text
+			plan = append(plan, ps.job(genScanText(g), prep, ansi, "scan_text", false))
+		default: // external-command statement
+			plan = append(plan, ps.job(genExternal(g), prep, ansi, "external_command", false))
 		}
 	}
+	return plan
 }
 
 // report: per law, the fixed reproducer (if it failed) and the shortest failing inputs (shrunk), each distinct text
